@@ -864,6 +864,8 @@ fn check_arrangement(
             }
         }
     }
+    // (5) one failing or damaged read at every store call of the recovery: Err, or the full merge
+    check_recovery_under_read_faults(name, &b, &truth_store, if tolerated { None } else { Some(&truth_all) }, modulo, ctx)?;
     // (6) the entry point the server uses: StreamingIntegration::recover into a node, then the
     // binary's WAL replay; run twice into the same node
     check_server_startup(name, &b.store, &b.wal, &truth_store, &truth_all, keys, node_replica, modulo)?;
@@ -2010,6 +2012,230 @@ impl ObjectStore for RaceStore {
             self.inner.head(key).await
         })
     }
+}
+
+// ---------------------------------------------------------------------------------------
+// recovery under ONE failing or damaged read (enumerated over every store call of the recovery)
+// ---------------------------------------------------------------------------------------
+
+#[derive(Clone, Copy, Debug, PartialEq, Eq)]
+enum ReadFault {
+    /// the call fails with this error kind
+    Fail(std::io::ErrorKind),
+    /// a `get` succeeds but one bit of the returned bytes is flipped (byte index = fraction/1024 of the length)
+    FlipBit(u16),
+    /// a `get` succeeds but returns only the first fraction/1024 of the bytes
+    Truncate(u16),
+}
+
+struct FaultCtl {
+    calls: usize,
+    /// 1-based index of the call that is hit (0 = none)
+    fire_at: usize,
+    fault: ReadFault,
+    log: Vec<String>,
+    hit: Option<String>,
+}
+
+/// Harness-owned ObjectStore the recovering process sees: read-only calls pass through to the
+/// inner store; the call with index `fire_at` fails or (for `get`) returns damaged bytes.
+#[derive(Clone)]
+struct FaultStore {
+    inner: InMemoryObjectStore,
+    ctl: Arc<Mutex<FaultCtl>>,
+}
+
+impl FaultStore {
+    fn new(inner: InMemoryObjectStore, fire_at: usize, fault: ReadFault) -> Self {
+        FaultStore {
+            inner,
+            ctl: Arc::new(Mutex::new(FaultCtl { calls: 0, fire_at, fault, log: Vec::new(), hit: None })),
+        }
+    }
+    /// Some(fault) if this call is the one to hit
+    fn tick(&self, what: &str, key: &str) -> Option<ReadFault> {
+        let mut c = self.ctl.lock().unwrap();
+        c.calls += 1;
+        c.log.push(format!("{} {}", what, key));
+        if c.calls == c.fire_at {
+            c.hit = Some(format!("{} {}", what, key));
+            Some(c.fault)
+        } else {
+            None
+        }
+    }
+    fn fail(&self, what: &str, key: &str) -> Option<std::io::Error> {
+        match self.tick(what, key) {
+            Some(ReadFault::Fail(k)) => Some(std::io::Error::new(k, "injected read fault")),
+            _ => None,
+        }
+    }
+    fn log(&self) -> Vec<String> {
+        self.ctl.lock().unwrap().log.clone()
+    }
+    fn hit(&self) -> Option<String> {
+        self.ctl.lock().unwrap().hit.clone()
+    }
+}
+
+impl ObjectStore for FaultStore {
+    fn put<'a>(&'a self, key: &'a str, data: &'a [u8]) -> Pin<Box<dyn Future<Output = IoRes<()>> + Send + 'a>> {
+        Box::pin(async move {
+            if let Some(e) = self.fail("put", key) {
+                return Err(e);
+            }
+            self.inner.put(key, data).await
+        })
+    }
+    fn get<'a>(&'a self, key: &'a str) -> Pin<Box<dyn Future<Output = IoRes<Vec<u8>>> + Send + 'a>> {
+        Box::pin(async move {
+            match self.tick("get", key) {
+                Some(ReadFault::Fail(k)) => Err(std::io::Error::new(k, "injected read fault")),
+                Some(ReadFault::FlipBit(f)) => {
+                    let mut data = self.inner.get(key).await?;
+                    if !data.is_empty() {
+                        let i = (f as usize * data.len() / 1024).min(data.len() - 1);
+                        data[i] ^= 1 << (f % 8);
+                    }
+                    Ok(data)
+                }
+                Some(ReadFault::Truncate(f)) => {
+                    let mut data = self.inner.get(key).await?;
+                    let keep = (f as usize * data.len() / 1024).min(data.len().saturating_sub(1));
+                    data.truncate(keep);
+                    Ok(data)
+                }
+                None => self.inner.get(key).await,
+            }
+        })
+    }
+    fn exists<'a>(&'a self, key: &'a str) -> Pin<Box<dyn Future<Output = IoRes<bool>> + Send + 'a>> {
+        Box::pin(async move {
+            if let Some(e) = self.fail("exists", key) {
+                return Err(e);
+            }
+            self.inner.exists(key).await
+        })
+    }
+    fn delete<'a>(&'a self, key: &'a str) -> Pin<Box<dyn Future<Output = IoRes<()>> + Send + 'a>> {
+        Box::pin(async move {
+            if let Some(e) = self.fail("delete", key) {
+                return Err(e);
+            }
+            self.inner.delete(key).await
+        })
+    }
+    fn list<'a>(
+        &'a self,
+        prefix: &'a str,
+        continuation_token: Option<&'a str>,
+    ) -> Pin<Box<dyn Future<Output = IoRes<ListResult>> + Send + 'a>> {
+        Box::pin(async move {
+            if let Some(e) = self.fail("list", prefix) {
+                return Err(e);
+            }
+            self.inner.list(prefix, continuation_token).await
+        })
+    }
+    fn rename<'a>(&'a self, from: &'a str, to: &'a str) -> Pin<Box<dyn Future<Output = IoRes<()>> + Send + 'a>> {
+        Box::pin(async move {
+            if let Some(e) = self.fail("rename", from) {
+                return Err(e);
+            }
+            self.inner.rename(from, to).await
+        })
+    }
+    fn head<'a>(&'a self, key: &'a str) -> Pin<Box<dyn Future<Output = IoRes<ObjectMeta>> + Send + 'a>> {
+        Box::pin(async move {
+            if let Some(e) = self.fail("head", key) {
+                return Err(e);
+            }
+            self.inner.head(key).await
+        })
+    }
+}
+
+/// For every store call a fault-free recovery makes, and for each read fault (a time-out on any
+/// call, NotFound on any object the manifest names; a flipped bit at three places and a truncation on a `get` of a segment or checkpoint
+/// object — the manifest is plain JSON without a checksum, damaging it is not covered by any
+/// listed property): the recovery must either fail or return exactly the merge a fault-free
+/// recovery returns. "Ok with less" is the violation: a recovery that swallows a failed read
+/// hands the node a state that silently lacks persisted updates.
+fn check_recovery_under_read_faults(
+    name: &str,
+    b: &Built,
+    truth_store: &State,
+    truth_all: Option<&State>,
+    modulo: bool,
+    ctx: &mut CaseCtx<'_>,
+) -> Result<(), String> {
+    let probe = FaultStore::new(b.store.clone(), 0, ReadFault::Fail(std::io::ErrorKind::Other));
+    let mgr = RecoveryManager::new(probe.clone(), PREFIX, 1);
+    ready(mgr.recover()).map_err(|e| format!("arrangement {}: fault-free recover() through the counting store: {}", name, e))?;
+    let calls = probe.log();
+    let mut evals = 0u64;
+    for (i, call) in calls.iter().enumerate() {
+        let is_get = call.starts_with("get ");
+        let on_image = is_get && !call.contains("manifest");
+        // NotFound on the manifest itself is indistinguishable from "a new, empty store" (which
+        // load_or_create must answer with an empty manifest), so it is only injected on objects
+        // the manifest names: there a missing object is a lost object.
+        let mut faults = vec![ReadFault::Fail(std::io::ErrorKind::TimedOut)];
+        if !call.contains("manifest") {
+            faults.push(ReadFault::Fail(std::io::ErrorKind::NotFound));
+        }
+        if on_image {
+            faults.extend([ReadFault::FlipBit(52), ReadFault::FlipBit(517), ReadFault::FlipBit(1019), ReadFault::Truncate(700)]);
+        }
+        for fault in faults {
+            for with_wal in [false, true] {
+                let truth = if with_wal {
+                    match truth_all {
+                        Some(t) => t,
+                        None => continue,
+                    }
+                } else {
+                    truth_store
+                };
+                let fs = FaultStore::new(b.store.clone(), i + 1, fault);
+                let mgr = RecoveryManager::new(fs.clone(), PREFIX, 1);
+                let res = if with_wal {
+                    let rot = WalRotator::new(b.wal.clone(), 1 << 20).map_err(|e| format!("WalRotator::new: {}", e))?;
+                    ready(mgr.recover_with_wal(&rot))
+                } else {
+                    ready(mgr.recover())
+                };
+                evals += 1;
+                if fs.hit().is_none() {
+                    continue; // the faulted run took another path and never made that call
+                }
+                if let Ok(rs) = res {
+                    let got = fold_recovered(&rs);
+                    if let Some(diff) = diff_states(truth, &got, modulo) {
+                        return Err(format!(
+                            "arrangement {}: {} returned Ok although store call #{} ({}) was hit by {:?}, and the state it returned is not the merge of what is persisted: a failed or damaged read was swallowed\n    {}\n  calls of the fault-free recovery: {:?}\n  manifest: {}",
+                            name,
+                            if with_wal { "recover_with_wal()" } else { "recover()" },
+                            i + 1,
+                            call,
+                            fault,
+                            diff,
+                            calls,
+                            serde_json::to_string(&b.manifest).unwrap_or_default()
+                        ));
+                    }
+                    ctx.label("read_fault:recovery_ok_and_complete");
+                } else {
+                    ctx.label("read_fault:recovery_failed");
+                }
+                if call.contains("checkpoint") {
+                    ctx.label("read_fault:on_checkpoint_object");
+                }
+            }
+        }
+    }
+    ctx.add_evaluations(evals);
+    Ok(())
 }
 
 #[derive(Clone, Debug, Serialize, Deserialize, Hash)]
